@@ -206,6 +206,30 @@ def validate(name, scen, nw, struct, runs, wd, tag, invariants, markers=True):
     return accepted, rejections, stats
 
 
+def liveness_part(chk, thorough, wd, names, struct):
+    """Pool.tla FairSpec => <>Finished: under weak fairness of every thread the executor thread gets through every
+    run() of the scenario and through the drop of the executor (no lost unpark, no endless search loop)."""
+    for nw in ((2, 3) if thorough else (2,)):
+        for n in names:
+            if nw == 3 and n in ("overflow", "burst"):
+                continue  # several 10^6 states: the SCC search of the liveness check does not finish in the tier's budget
+            mod, cfg = pooldefs.write_mc(n, pooldefs.SCENARIOS[n], nw, os.path.join(wd, "live"), invariants=["TypeOK"],
+                                         **struct)
+            cp = os.path.join(wd, "live", cfg)
+            with open(cp) as f:
+                text = f.read().replace("SPECIFICATION Spec", "SPECIFICATION FairSpec") + "PROPERTIES Terminates\n"
+            with open(cp, "w") as f:
+                f.write(text)
+            res = run_tlc(mod, cfg, os.path.join(wd, "live"), workers=8, timeout=3000)
+            chk.add_tlc(f"Pool liveness [FairSpec => <>Finished, {n}, {nw} workers, structure {struct}]", res)
+            if not res.ok:
+                chk.violation(f"Pool.tla with the structure of run_local_worker extracted from the source ({struct}): under "
+                              f"weak fairness of every thread, scenario {n} with {nw} workers has a behaviour in which a "
+                              f"run() or the drop of the executor never returns ({res.violation})",
+                              dict(engine="pool", scenario=n, nw=nw, structure=struct, tlc_trace=res.trace[-160:]),
+                              signature=f"poollive:{n}:{nw}")
+
+
 def pool_part(chk, rng, thorough, wd, invariants, scenarios=None, big=True, only_big=False):
     prop = chk.prop
     struct = extract_structure()
@@ -223,6 +247,9 @@ def pool_part(chk, rng, thorough, wd, invariants, scenarios=None, big=True, only
                               f"{res.violation} on scenario {n} with {nw} workers",
                               dict(engine="pool", scenario=n, nw=nw, structure=struct, tlc_trace=res.trace[-120:]),
                               signature=f"pooltlc:{n}:{nw}:{res.violation}")
+    # 1b. liveness under weak fairness of every thread (where NoStrandedRun, its safety shadow, is checked)
+    if "NoStrandedRun" in invariants:
+        liveness_part(chk, thorough, wd, names, struct)
     # 2. real thread pool, delay sweep, trace validation
     rep = 12 if thorough else 4
     for n in names:
